@@ -74,5 +74,6 @@ int p_c05(void); int p_c06(void); int p_c09(void); int p_c12(void); int p_c15(vo
 int p_c16(void); int p_c17(void); int p_c18(void);
 int selftest(void);
 int p_c05_child(void);
+int p_c12_child(void);
 
 #endif
